@@ -1,7 +1,7 @@
 (* FiltChainAddr.v — retrieval for paths with existence filters, from the path text: the path `$` steps returns exactly
    the values its steps reach, where a filter step [?(@ inner)] keeps, of the elements of an array (index order) or
    the members of an object (ascending key order), those from which the inner steps reach at least one value. *)
-From JP Require Import Peg Grammar Slice Text Tree Actions Json Eval WF Spec SortFacts EvalInv1 EvalInv4 EvalTop EndToEnd Codec KeyDefs KeyParse IdxParse SliceParse UnionParse WildParse RecParse ChainParse SpacePath FunParse AggParse FiltParse CmpParse CmpSpace NegFilt RootOp QueryParse FiltChain ChainAddr FunAddr AggAddr FiltAddr CmpAddr QueryAddr.
+From JP Require Import Peg Grammar Slice Text Tree Actions Json Eval WF Spec SortFacts EvalInv1 EvalInv4 EvalTop EndToEnd Codec KeyDefs KeyParse IdxParse SliceParse UnionParse WildParse RecParse ChainParse SpacePath FunParse AggParse FiltParse CmpParse CmpSpace NegFilt RootOp QueryParse FiltSpace FiltChain ChainAddr FunAddr AggAddr FiltAddr CmpAddr QueryAddr.
 From Coq Require Import Lia.
 Open Scope list_scope.
 
@@ -25,7 +25,8 @@ Section FiltChainAddr.
     | FR y => flat_map (fun cu => nav1f root y (cu_loc cu, snd cu)) (containers (Some (fst lv)) (snd lv))
     | FS y => nav1r y lv
     | FE i => navf i lv
-    | FC i o lit | FCS i _ o _ lit => navp (ctest i o (lit_num parse_float lit)) lv
+    | FC i o lit | FCS i _ _ o _ _ lit => navp (ctest i o (lit_num parse_float lit)) lv
+    | FES neg _ _ i _ => if neg then navp (fun x => negb (reaches i x)) lv else navf i lv
     | FN i => navp (fun x => negb (reaches i x)) lv
     | FQ d => navp (dnf_test parse_float regex_match root (kids (snd lv)) d) lv
     end.
@@ -37,7 +38,8 @@ Section FiltChainAddr.
     | FR y => Node (KRec true true) b1 (OSome (fseg y b1 b2 next))
     | FS y => seg y b1 b2 next
     | FE i => Node (filt_kind cfg i) b2 next
-    | FC i o lit | FCS i _ o _ lit => Node (cmp_kind cfg i o (lit_num parse_float lit)) b2 next
+    | FC i o lit | FCS i _ _ o _ _ lit => Node (cmp_kind cfg i o (lit_num parse_float lit)) b2 next
+    | FES neg _ _ i _ => Node (fes_kind cfg neg i) b2 next
     | FN i => Node (neg_kind cfg i) b2 next
     | FQ d => Node (fq_kind cfg parse_float d) b2 next
     end.
@@ -45,12 +47,12 @@ Section FiltChainAddr.
   Lemma sp_fseg x b1 b2 next root : forall p v, fstep_ok x = true -> small root -> small v ->
     sp (fseg x b1 b2 next) root (Some p, v) = flat_map (fwd b2 next root) (nav1f root x (p, v)).
   Proof.
-    induction x as [y|i|i o lit|i|d|y IH|i a o b lit]; intros p v Hs Hr Hsm.
+    induction x as [y|i|i o lit|i|d|y IH|i g0 a o b g1 lit|neg g0 gn i g1]; intros p v Hs Hr Hsm.
     6: { cbn [fstep_ok] in Hs. apply andb_true_iff in Hs. destruct Hs as [Hf Hs]. cbn [fseg nav1f fst snd].
          assert (E : sp (Node (KRec true true) b1 (OSome (fseg y b1 b2 next))) root (Some p, v) =
                      flat_map (fun cu => sp (fseg y b1 b2 next) root cu) (containers (Some p) v)).
          { cbn [Spec.sp fst snd]. apply flat_map_ext'. intros [l x]. cbn [snd].
-           destruct y as [y0|i|i o lit|i|d|y0|i a o b lit]; try discriminate Hf; cbn [fseg]; destruct x; reflexivity. }
+           destruct y as [y0|i|i o lit|i|d|y0|i g0 a o b g1 lit|neg g0 gn i g1]; try discriminate Hf; cbn [fseg]; try (destruct neg); destruct x; reflexivity. }
          rewrite E. rewrite flat_map_flat_map. apply flat_map_ext_in'. intros cu Hin.
          pose proof (containers_some v p Hsm) as Hc. rewrite Forall_forall in Hc. destruct (Hc cu Hin) as [[l Hl] Hsx].
          destruct cu as [ol x]. cbn [fst snd] in *. subst ol. unfold cu_loc. cbn [fst snd].
@@ -64,6 +66,7 @@ Section FiltChainAddr.
     - apply (sp_fq cfg parse_float ffun afun regex_match); assumption.
     - apply andb_true_iff in Hs. destruct Hs as [Hs _]. apply andb_true_iff in Hs. destruct Hs as [Hs _].
       apply (sp_cmp cfg ffun afun regex_match); assumption.
+    - destruct neg; cbn [fes_kind]; [apply (sp_neg cfg ffun afun regex_match); assumption|apply (sp_filt cfg ffun afun regex_match); assumption].
   Qed.
 
   Lemma navp_small h p v : small v -> Forall (fun lv => small (snd lv)) (navp h (p, v)).
@@ -91,7 +94,7 @@ Section FiltChainAddr.
   Qed.
   Lemma nav1f_small root x p v : small v -> Forall (fun lv => small (snd lv)) (nav1f root x (p, v)).
   Proof.
-    revert p v. induction x as [y|i|i o lit|i|d|y IH|i a o b lit]; intros p v Hsm; cbn [nav1f]; [apply nav1r_small|apply navf_small|apply navp_small|apply navp_small|apply navp_small| |apply navp_small]; try exact Hsm.
+    revert p v. induction x as [y|i|i o lit|i|d|y IH|i g0 a o b g1 lit|neg g0 gn i g1]; intros p v Hsm; cbn [nav1f]; [apply nav1r_small|apply navf_small|apply navp_small|apply navp_small|apply navp_small| |apply navp_small|destruct neg; [apply navp_small|apply navf_small]]; try exact Hsm.
     cbn [fst snd]. apply Forall_forall. intros a Ha. apply in_flat_map in Ha. destruct Ha as [cu [Hcu Ha]].
     pose proof (containers_some v p Hsm) as Hc. rewrite Forall_forall in Hc. destruct (Hc cu Hcu) as [_ Hs].
     pose proof (IH (cu_loc cu) (snd cu) Hs) as H. rewrite Forall_forall in H. exact (H a Ha).
@@ -100,7 +103,7 @@ Section FiltChainAddr.
   Lemma fin_fpre x : forall tl, fstep_ok x = true ->
     exists b1 b2, fin (fpre_of cfg parse_float x ++ tl) = OSome (fseg x b1 b2 (fin tl)) /\ accessor b2 = cfg_accessor cfg.
   Proof.
-    destruct x as [[s|s]|i|i o lit|i|d|y|i a o b lit]; intros tl Hok; cbn [fpre_of rstep_pre app fin fst snd fseg ChainAddr.seg].
+    destruct x as [[s|s]|i|i o lit|i|d|y|i g0 a o b g1 lit|neg g0 gn i g1]; intros tl Hok; cbn [fpre_of rstep_pre app fin fst snd fseg ChainAddr.seg].
     - eexists (pre_basic cfg s), _. split; reflexivity.
     - eexists _, _. split; [reflexivity|]. destruct s as [q k|k|ds|[|]|sa sb sc|u us]; reflexivity.
     - eexists (filt_basic cfg i), _. split; reflexivity.
@@ -108,7 +111,8 @@ Section FiltChainAddr.
     - eexists (filt_basic cfg i), _. split; reflexivity.
     - eexists (fq_basic cfg d), _. split; reflexivity.
     - cbn [fstep_ok] in Hok. apply andb_true_iff in Hok. destruct Hok as [Hf _].
-      destruct y as [y0|i|i o lit|i|d|y0|i a o b lit]; try discriminate Hf; cbn [fpre_of app fin fst snd fseg]; eexists _, _; (split; reflexivity).
+      destruct y as [y0|i|i o lit|i|d|y0|i g0 a o b g1 lit|neg g0 gn i g1]; try discriminate Hf; cbn [fpre_of app fin fst snd fseg]; eexists _, _; (split; reflexivity).
+    - eexists (filt_basic cfg i), _. split; reflexivity.
     - eexists (filt_basic cfg i), _. split; reflexivity.
   Qed.
   Lemma fin_fpres_f x r : fstep_ok x = true ->
@@ -117,7 +121,7 @@ Section FiltChainAddr.
   Lemma fchain_node_seg x r : fstep_ok x = true ->
     exists b1 b2, fchain_node cfg parse_float (x :: r) = fseg x b1 b2 (fin (fpres cfg parse_float r)) /\ accessor b2 = cfg_accessor cfg.
   Proof.
-    intros Hok. unfold fchain_node, node_of, fpres. cbn [flat_map]. destruct x as [[s|s]|i|i o lit|i|d|y|i a o b lit]; cbn [fpre_of rstep_pre app fin fst snd fseg ChainAddr.seg].
+    intros Hok. unfold fchain_node, node_of, fpres. cbn [flat_map]. destruct x as [[s|s]|i|i o lit|i|d|y|i g0 a o b g1 lit|neg g0 gn i g1]; cbn [fpre_of rstep_pre app fin fst snd fseg ChainAddr.seg].
     - eexists (pre_basic cfg s), _. split; reflexivity.
     - eexists _, _. split; [reflexivity|]. destruct s as [q k|k|ds|[|]|sa sb sc|u us]; reflexivity.
     - eexists (filt_basic cfg i), _. split; reflexivity.
@@ -125,7 +129,8 @@ Section FiltChainAddr.
     - eexists (filt_basic cfg i), _. split; reflexivity.
     - eexists (fq_basic cfg d), _. split; reflexivity.
     - cbn [fstep_ok] in Hok. apply andb_true_iff in Hok. destruct Hok as [Hf _].
-      destruct y as [y0|i|i o lit|i|d|y0|i a o b lit]; try discriminate Hf; cbn [fpre_of app fin fst snd fseg]; eexists _, _; (split; reflexivity).
+      destruct y as [y0|i|i o lit|i|d|y0|i g0 a o b g1 lit|neg g0 gn i g1]; try discriminate Hf; cbn [fpre_of app fin fst snd fseg]; eexists _, _; (split; reflexivity).
+    - eexists (filt_basic cfg i), _. split; reflexivity.
     - eexists (filt_basic cfg i), _. split; reflexivity.
   Qed.
 
@@ -184,7 +189,7 @@ Section FiltChainAddr.
   Fixpoint fstep_rootfree (x : fstep) : bool := match x with FQ d => forallb (forallb bq_rootfree) d | FR y => fstep_rootfree y | _ => true end.
   Lemma nav1f_rootfree root root' x : forall lv, fstep_rootfree x = true -> nav1f root x lv = nav1f root' x lv.
   Proof.
-    induction x as [y|i|i o lit|i|d|y IH|i a o b lit]; intros lv H; cbn [nav1f]; try reflexivity.
+    induction x as [y|i|i o lit|i|d|y IH|i g0 a o b g1 lit|neg g0 gn i g1]; intros lv H; cbn [nav1f]; try reflexivity.
     2: { cbn [fstep_rootfree] in H. apply flat_map_ext'. intros cu. apply IH. exact H. }
     cbn [fstep_rootfree] in H.
     assert (E : forall vals v, dnf_test parse_float regex_match root vals d v = dnf_test parse_float regex_match root' vals d v).
